@@ -59,10 +59,16 @@ theorem flattenUnion_mem (cf : CoreFacts) (e : RE) (w : List ℕ) :
 
 end CoreFacts
 
-/-! ## 0. `Σ*` denotes all SMT strings -/
+/-! ## 0. `Σ*` denotes all SMT strings
+
+  (helper lemmas live in the namespace `Smt.RE.SetOps` so that they cannot clash with the
+  same facts proved in Proofs/ReLangLoop.lean / ReLangCore.lean) -/
+
+namespace SetOps
 
 theorem sigma_lang : sigma.lang = {w | ∃ c, w = [c] ∧ c ≤ MAX_CHAR} := by
-  simp [sigma, lang, CharSet.allChars]
+  simp only [sigma, lang, CharSet.allChars, Nat.zero_le, true_and]
+  rfl
 
 theorem sigma_mem (w : List ℕ) : w ∈ sigma.lang ↔ ∃ c, w = [c] ∧ c ≤ MAX_CHAR := by
   rw [sigma_lang]; exact Iff.rfl
@@ -117,6 +123,9 @@ theorem empty_mem (w : List ℕ) : w ∈ RE.empty.lang ↔ False := by
 theorem epsilon_mem (w : List ℕ) : w ∈ RE.epsilon.lang ↔ w = [] := by
   simp only [lang]; exact Language.mem_one w
 
+end SetOps
+open SetOps
+
 /-! ## 1. sort / dedup / contains -/
 
 theorem insertByOrd_perm (ord : RE → Nat) (x : RE) (l : List RE) :
@@ -143,8 +152,7 @@ theorem mem_dedup (l : List RE) (x : RE) : x ∈ dedup l ↔ x ∈ l := by
   fun_induction dedup l with
   | case1 => exact Iff.rfl
   | case2 y => exact Iff.rfl
-  | case3 a b rest h ih =>
-    subst h
+  | case3 b rest ih =>
     rw [ih]; simp only [List.mem_cons]
     constructor
     · intro h; exact Or.inr h
@@ -159,8 +167,8 @@ theorem dedup_sublist (l : List RE) : (dedup l).Sublist l := by
   fun_induction dedup l with
   | case1 => exact List.Sublist.refl _
   | case2 y => exact List.Sublist.refl _
-  | case3 a b rest h ih => exact List.Sublist.cons _ ih
-  | case4 a b rest h ih => exact List.Sublist.cons₂ _ ih
+  | case3 b rest ih => exact List.Sublist.cons _ ih
+  | case4 a b rest h ih => exact List.Sublist.cons_cons _ ih
 
 theorem mem_dedup_sort (ord : RE → Nat) (l : List RE) (x : RE) :
     x ∈ dedup (sortByOrd ord l) ↔ x ∈ l := by
@@ -388,7 +396,7 @@ theorem simplifySetOperation_union_lang (cf : CoreFacts) {ord : RE → Nat} (hp 
 
 /-! ## 3. `make_inter` -/
 
-theorem all_nullable_iff (v : List RE) :
+theorem SetOps.all_nullable_iff (v : List RE) :
     v.all (·.nullable) = true ↔ ∀ e ∈ v, e.nullable = true := by
   simp [List.all_eq_true]
 
@@ -412,7 +420,7 @@ theorem makeInter_lang (cf : CoreFacts) {ord : RE → Nat} (hp : PairSound ord)
       rw [epsilon_mem]
       constructor
       · intro h; subst h
-        refine ⟨fun c hc => by cases hc, ?_⟩
+        refine ⟨fun c hc => (by cases hc), ?_⟩
         rw [langAll_iff]
         intro e he
         exact (cf.nullable_iff e (hv' e he)).1 (hall e he)
@@ -434,13 +442,13 @@ theorem makeInter_lang (cf : CoreFacts) {ord : RE → Nat} (hp : PairSound ord)
     · ext w
       rw [sigmaStar_mem]
       exact ⟨fun h => ⟨h, trivial⟩, fun h => h.1⟩
-    · rename_i x
+    · rename_i x _
       ext w
       constructor
       · intro h
         exact ⟨cf.lang_wfs (hv' x (List.mem_singleton.2 rfl)) h, h, trivial⟩
       · rintro ⟨_, h, _⟩; exact h
-    · simp only [lang]
+    · simp only [lang]; rfl
 
 theorem makeInter_wf (ord : RE → Nat) (v : List RE) (hv : WFList v) : (makeInter ord v).WF := by
   have hv' := simplifySetOperation_wf ord v sigmaStar .empty hv trivial
@@ -460,7 +468,7 @@ theorem isSubsumed_iff (r : RE) (a : List RE) :
     isSubsumed r a = true ↔ ∃ x ∈ a, x ≠ r ∧ subLanguage r x = true := by
   simp [isSubsumed]
 
-theorem langAny_append (a b : List RE) : langAny (a ++ b) = langAny a + langAny b := by
+theorem SetOps.langAny_append (a b : List RE) : langAny (a ++ b) = langAny a + langAny b := by
   ext w
   rw [Language.mem_add, langAny_iff, langAny_iff, langAny_iff]
   simp only [List.mem_append]
@@ -587,21 +595,21 @@ theorem makeUnion_wf (ord : RE → Nat) (v : List RE) (hv : WFList v) : (makeUni
 
 /-! ## 5. `inter`, `inter_list`, `union`, `union_list`, `diff`, `diff_list` -/
 
-theorem WFList_append {a b : List RE} (ha : WFList a) (hb : WFList b) : WFList (a ++ b) := by
+theorem SetOps.WFList_append {a b : List RE} (ha : WFList a) (hb : WFList b) : WFList (a ++ b) := by
   rw [WFList_iff] at ha hb ⊢
   intro e he
   rcases List.mem_append.1 he with h | h
   · exact ha e h
   · exact hb e h
 
-theorem WFList_flatMap {α : Type} (f : α → List RE) (l : List α) (h : ∀ a ∈ l, WFList (f a)) :
+theorem SetOps.WFList_flatMap {α : Type} (f : α → List RE) (l : List α) (h : ∀ a ∈ l, WFList (f a)) :
     WFList (l.flatMap f) := by
   rw [WFList_iff]
   intro e he
   obtain ⟨a, ha, hea⟩ := List.mem_flatMap.1 he
   exact (WFList_iff _).1 (h a ha) e hea
 
-theorem langAll_append_mem (a b : List RE) (w : List ℕ) :
+theorem SetOps.langAll_append_mem (a b : List RE) (w : List ℕ) :
     w ∈ langAll (a ++ b) ↔ w ∈ langAll a ∧ w ∈ langAll b := by
   simp only [langAll_iff, List.mem_append]
   constructor
@@ -689,7 +697,7 @@ theorem mkDiff_wf (cf : CoreFacts) (ord : RE → Nat) (a b : RE) (ha : a.WF) (hb
 /-- `ReManager::diff` denotes the set difference. -/
 theorem mkDiff_lang (cf : CoreFacts) {ord : RE → Nat} (hp : PairSound ord)
     (a b : RE) (ha : a.WF) (hb : b.WF) :
-    (mkDiff ord a b).lang = {w | w ∈ a.lang ∧ w ∉ b.lang} := by
+    (mkDiff ord a b).lang = a.lang \ b.lang := by
   unfold mkDiff
   rw [mkInter_lang cf hp a _ ha (cf.complement_wf b hb)]
   ext w
@@ -767,6 +775,128 @@ theorem mkDiffList_lang_history_independent (cf : CoreFacts) {ord₁ ord₂ : RE
     (h₁ : PairSound ord₁) (h₂ : PairSound ord₂) (a : RE) (l : List RE) (ha : a.WF)
     (hl : WFList l) : (mkDiffList ord₁ a l).lang = (mkDiffList ord₂ a l).lang := by
   rw [mkDiffList_lang cf h₁ a l ha hl, mkDiffList_lang cf h₂ a l ha hl]
+
+/-! ### the constructors depend on `ord` only through its restriction to the (flattened) operands
+
+  `construction_deterministic` of DESIGN.md §7 C07: two id assignments that agree on the operand
+  list give the same result tree (no `PairSound`, no well-formedness needed).  Note that `top` and
+  `ε` need not be operands: `contains` answers `false` for a non-member whatever its id is. -/
+
+section Congr
+variable {ord₁ ord₂ : RE → Nat}
+
+theorem insertByOrd_congr (x : RE) (l : List RE) (hx : ord₁ x = ord₂ x)
+    (hl : ∀ y ∈ l, ord₁ y = ord₂ y) : insertByOrd ord₁ x l = insertByOrd ord₂ x l := by
+  induction l with
+  | nil => rfl
+  | cons y ys ih =>
+    simp only [insertByOrd, hx, hl y (List.mem_cons_self ..),
+      ih (fun z hz => hl z (List.mem_cons_of_mem _ hz))]
+
+theorem sortByOrd_congr (l : List RE) (hl : ∀ y ∈ l, ord₁ y = ord₂ y) :
+    sortByOrd ord₁ l = sortByOrd ord₂ l := by
+  induction l with
+  | nil => rfl
+  | cons x xs ih =>
+    have ih' := ih (fun z hz => hl z (List.mem_cons_of_mem _ hz))
+    simp only [sortByOrd, ih']
+    exact insertByOrd_congr x _ (hl x (List.mem_cons_self ..))
+      (fun y hy => hl y (List.mem_cons_of_mem _ ((mem_sortByOrd _ _ _).1 hy)))
+
+theorem containsSorted_congr_aux (l : List RE) (x : RE) (hx : ord₁ x = ord₂ x)
+    (hl : ∀ y ∈ l, ord₁ y = ord₂ y) : containsSorted ord₁ l x = containsSorted ord₂ l x := by
+  induction l with
+  | nil => rfl
+  | cons y ys ih =>
+    simp only [containsSorted, hx, hl y (List.mem_cons_self ..),
+      ih (fun z hz => hl z (List.mem_cons_of_mem _ hz))]
+
+/-- `contains(v, x)` depends on the ids of the members of `v` only — and on nothing if `x ∉ v` -/
+theorem containsSorted_congr (l : List RE) (x : RE) (hl : x ∈ l → ∀ y ∈ l, ord₁ y = ord₂ y) :
+    containsSorted ord₁ l x = containsSorted ord₂ l x := by
+  by_cases hx : x ∈ l
+  · exact containsSorted_congr_aux l x (hl hx x hx) (hl hx)
+  · have h1 : containsSorted ord₁ l x = false :=
+      Bool.eq_false_iff.2 (fun h => hx (containsSorted_sound _ _ _ h))
+    have h2 : containsSorted ord₂ l x = false :=
+      Bool.eq_false_iff.2 (fun h => hx (containsSorted_sound _ _ _ h))
+    rw [h1, h2]
+
+theorem simplifyLoop_congr (bottom : RE) : ∀ (rest : List RE) (previous : RE),
+    ord₁ previous = ord₂ previous → (∀ y ∈ rest, ord₁ y = ord₂ y) →
+    simplifyLoop ord₁ bottom previous rest = simplifyLoop ord₂ bottom previous rest := by
+  intro rest
+  induction rest with
+  | nil => intro _ _ _; rfl
+  | cons current rest ih =>
+    intro previous hp hl
+    have hc := hl current (List.mem_cons_self ..)
+    have hr : ∀ y ∈ rest, ord₁ y = ord₂ y := fun z hz => hl z (List.mem_cons_of_mem _ hz)
+    simp only [simplifyLoop, hp, hc, ih current hc hr, ih previous hp hr]
+
+/-- `simplify_set_operation` is a function of the operands and of their ids only -/
+theorem simplifySetOperation_congr (v : List RE) (bottom top : RE)
+    (h : ∀ y ∈ v, ord₁ y = ord₂ y) :
+    simplifySetOperation ord₁ v bottom top = simplifySetOperation ord₂ v bottom top := by
+  have hs := mem_dedup_sort ord₂ v
+  unfold simplifySetOperation
+  rw [sortByOrd_congr v h]
+  generalize dedup (sortByOrd ord₂ v) = s at hs
+  cases s with
+  | nil => rfl
+  | cons v0 rest =>
+    have hall : ∀ y ∈ v0 :: rest, ord₁ y = ord₂ y := fun y hy => h y ((hs y).1 hy)
+    simp only
+    rw [containsSorted_congr (v0 :: rest) top (fun _ => hall),
+      simplifyLoop_congr bottom rest v0 (hall v0 (List.mem_cons_self ..))
+        (fun y hy => hall y (List.mem_cons_of_mem _ hy))]
+
+theorem makeInter_congr (v : List RE) (h : ∀ y ∈ v, ord₁ y = ord₂ y) :
+    makeInter ord₁ v = makeInter ord₂ v := by
+  unfold makeInter
+  rw [simplifySetOperation_congr v sigmaStar .empty h]
+  have hc : containsSorted ord₁ (simplifySetOperation ord₂ v sigmaStar .empty) .epsilon
+      = containsSorted ord₂ (simplifySetOperation ord₂ v sigmaStar .empty) .epsilon := by
+    apply containsSorted_congr
+    intro heps y hy
+    rcases simplifySetOperation_shape ord₂ v sigmaStar .empty with ⟨he, _⟩ | hm
+    · rw [he, List.mem_singleton] at heps; cases heps
+    · exact h y ((hm y).1 hy).1
+  simp only [hc]
+
+theorem makeUnion_congr (v : List RE) (h : ∀ y ∈ v, ord₁ y = ord₂ y) :
+    makeUnion ord₁ v = makeUnion ord₂ v := by
+  unfold makeUnion
+  rw [simplifySetOperation_congr v .empty sigmaStar h]
+
+/-- C07 `construction_deterministic`, `inter`: the result depends on the id assignment only through
+    the ids of the flattened operands. -/
+theorem mkInter_deterministic (a b : RE)
+    (h : ∀ y ∈ flattenInter a ++ flattenInter b, ord₁ y = ord₂ y) :
+    mkInter ord₁ a b = mkInter ord₂ a b := makeInter_congr _ h
+
+theorem mkInterList_deterministic (l : List RE)
+    (h : ∀ y ∈ l.flatMap flattenInter, ord₁ y = ord₂ y) :
+    mkInterList ord₁ l = mkInterList ord₂ l := makeInter_congr _ h
+
+theorem mkUnion_deterministic (a b : RE)
+    (h : ∀ y ∈ flattenUnion a ++ flattenUnion b, ord₁ y = ord₂ y) :
+    mkUnion ord₁ a b = mkUnion ord₂ a b := makeUnion_congr _ h
+
+theorem mkUnionList_deterministic (l : List RE)
+    (h : ∀ y ∈ l.flatMap flattenUnion, ord₁ y = ord₂ y) :
+    mkUnionList ord₁ l = mkUnionList ord₂ l := makeUnion_congr _ h
+
+theorem mkDiff_deterministic (a b : RE)
+    (h : ∀ y ∈ flattenInter a ++ flattenInter b.complement, ord₁ y = ord₂ y) :
+    mkDiff ord₁ a b = mkDiff ord₂ a b := makeInter_congr _ h
+
+theorem mkDiffList_deterministic (a : RE) (l : List RE)
+    (h : ∀ y ∈ flattenInter a ++ l.flatMap (fun r => flattenInter r.complement),
+      ord₁ y = ord₂ y) :
+    mkDiffList ord₁ a l = mkDiffList ord₂ a l := makeInter_congr _ h
+
+end Congr
 
 end RE
 end Smt
